@@ -1,4 +1,4 @@
-"""
+r"""
 Discharge of obligations  pc => clause.
 
 Order of back ends (first that decides wins):
